@@ -1,6 +1,8 @@
 #!/bin/bash
 # tools/wave.sh <letters> <id> [<id> ...] : evaluate delivered mutants of several properties, four properties at a time
 letters=$1; shift
+wtopt=""
+case "$1" in --wt=*) wtopt="$1"; shift;; esac
 mkdir -p /tmp/wave
-printf '%s\n' "$@" | xargs -P 4 -I{} sh -c "/venv/bin/python /verif/tools/keep_mutants.py {} --letters=$letters > /tmp/wave/{}.out 2>&1"
+printf '%s\n' "$@" | xargs -P 4 -I{} sh -c "/venv/bin/python /verif/tools/keep_mutants.py {} --letters=$letters $wtopt > /tmp/wave/{}.out 2>&1"
 for id in "$@"; do echo "== $id"; cat /tmp/wave/$id.out; done
